@@ -883,6 +883,456 @@ theorem bwAllSteps_eq_brute (wl : List Callback) (e H : Nat) (he : e < wl.length
       have hcb := hwf _ (getD_mem wl j hj')
       exact ⟨j, hj', (stepP_iff e H j _ hcb.1 hcb.2 x).2 ⟨hx, hc⟩⟩
 
+namespace RosNaiveLemmas
+open PruneCoreLemmas
+
+/-! ### bw: monotonicity of the right-hand sides -/
+
+theorem cappedJobs_mono2 (k k' : CbKind) (a b c d : Nat) (h : a ≤ b) (h' : c ≤ d) :
+    cappedJobs k k' a c ≤ cappedJobs k k' b d := by
+  cases k with
+  | timer => exact h
+  | eventSource => exact h
+  | polledUnknown => simp only [cappedJobs]; omega
+  | polled p =>
+    cases k' <;> simp only [cappedJobs] <;> omega
+
+theorem bwRbf_mono (cb : Callback) (hwf : cb.arr.WF) (hm : MonoN cb.cost.ofJobs)
+    (k : CbKind) (npp x y a b : Nat) (h : x ≤ y) (h' : a ≤ b) :
+    cb.bwRbf k x a npp ≤ cb.bwRbf k y b npp := by
+  unfold Callback.bwRbf
+  have h1 := Arr.N_mono cb.arr hwf x y h
+  have h2 := Arr.N_mono cb.arr hwf a b h'
+  exact hm _ _ (cappedJobs_mono2 _ _ _ _ _ _ h1 (by omega))
+
+theorem bwInterference_mono (wl : List Callback) (e : Nat) (k : CbKind) (npp : Nat)
+    (hwf : ∀ cb ∈ wl, cb.arr.WF ∧ MonoN cb.cost.ofJobs) (x y a b : Nat) (h : x ≤ y) (h' : a ≤ b) :
+    bwInterference wl e k npp x a ≤ bwInterference wl e k npp y b := by
+  unfold bwInterference
+  apply sumList_map_le
+  intro i hi
+  have hcb := hwf _ (getD_mem wl i (List.mem_range.1 hi))
+  split
+  · exact Nat.le_refl _
+  · exact bwRbf_mono _ hcb.1 hcb.2 _ _ _ _ _ _ h h'
+
+theorem bwRbf_nonpp (cb : Callback) (h : ¬ cb.kind.isPP = true) (k : CbKind) (x a npp : Nat) :
+    cb.bwRbf k x a npp = cb.cost.ofJobs (cb.arr.N x) := by
+  unfold Callback.bwRbf
+  cases hk : cb.kind with
+  | timer => rfl
+  | eventSource => rfl
+  | polledUnknown => rw [hk] at h; exact absurd rfl h
+  | polled p => rw [hk] at h; exact absurd rfl h
+
+/-- the interference depends on the activation offset only through the arrivals of the
+polled callbacks -/
+theorem bwInterference_congr (wl : List Callback) (e : Nat) (k : CbKind) (npp x a a' : Nat)
+    (h : ∀ j, j < wl.length → j ≠ e → (wl.getD j default).kind.isPP = true →
+      (wl.getD j default).arr.N a = (wl.getD j default).arr.N a') :
+    bwInterference wl e k npp x a = bwInterference wl e k npp x a' := by
+  unfold bwInterference
+  congr 1
+  apply List.map_congr_left
+  intro j hj
+  by_cases hje : j = e
+  · rw [if_pos hje, if_pos hje]
+  · rw [if_neg hje, if_neg hje]
+    by_cases hpp : (wl.getD j default).kind.isPP = true
+    · unfold Callback.bwRbf
+      rw [h j (List.mem_range.1 hj) hje hpp]
+    · rw [bwRbf_nonpp _ hpp, bwRbf_nonpp _ hpp]
+
+/-! ### bw: the relevant steps -/
+
+/-- `x` is a relevant activation offset: the end of the chain releases something right
+after `x`, or a polled callback releases something at `x` -/
+def Rel (wl : List Callback) (e x : Nat) : Prop :=
+  ∃ j, j < wl.length ∧
+    (if j = e then (wl.getD j default).arr.N x < (wl.getD j default).arr.N (x + 1)
+     else (wl.getD j default).kind.isPP = true ∧ 1 ≤ x ∧
+       (wl.getD j default).arr.N (x - 1) < (wl.getD j default).arr.N x)
+
+theorem stepP_iff' (e H j : Nat) (cb : Callback) (hwf : cb.arr.WF) (hex : cb.arr.Exact) (x : Nat) :
+    StepP e H j cb x ↔
+      (x ≤ H ∧ (if j = e then cb.arr.N x < cb.arr.N (x + 1)
+        else cb.kind.isPP = true ∧ 1 ≤ x ∧ cb.arr.N (x - 1) < cb.arr.N x)) := by
+  unfold StepP
+  by_cases hje : j = e
+  · rw [if_pos hje, if_pos hje, List.mem_map]
+    have hs := Arr.steps_spec cb.arr hwf hex (H + 1)
+    constructor
+    · rintro ⟨δ, hδ, rfl⟩
+      have h := (hs.2 δ).1 hδ
+      have e1 : δ - 1 + 1 = δ := by omega
+      rw [e1]
+      exact ⟨by omega, h.2.2⟩
+    · rintro ⟨hx, hlt⟩
+      refine ⟨x + 1, (hs.2 (x + 1)).2 ⟨by omega, by omega, ?_⟩, by omega⟩
+      rw [Nat.add_sub_cancel]
+      exact hlt
+  · rw [if_neg hje, if_neg hje]
+    have hs := Arr.steps_spec cb.arr hwf hex H
+    rw [hs.2 x]
+    constructor
+    · rintro ⟨h1, h2, h3, h4⟩
+      exact ⟨h3, h1, h2, h4⟩
+    · rintro ⟨h1, h2, h3, h4⟩
+      exact ⟨h2, h3, h1, h4⟩
+
+theorem mem_bwAllSteps (wl : List Callback) (e H : Nat)
+    (hwf : ∀ cb ∈ wl, cb.arr.WF ∧ cb.arr.Exact) (x : Nat) :
+    x ∈ bwAllSteps wl e H ↔ (x ≤ H ∧ Rel wl e x) := by
+  unfold bwAllSteps Rel
+  rw [mem_dedup, mem_go]
+  simp only [Nat.zero_add]
+  constructor
+  · rintro ⟨j, hj, hp⟩
+    have hcb := hwf _ (getD_mem wl j hj)
+    have := (stepP_iff' e H j _ hcb.1 hcb.2 x).1 hp
+    exact ⟨this.1, j, hj, this.2⟩
+  · rintro ⟨hx, j, hj, hc⟩
+    have hcb := hwf _ (getD_mem wl j hj)
+    exact ⟨j, hj, (stepP_iff' e H j _ hcb.1 hcb.2 x).2 ⟨hx, hc⟩⟩
+
+theorem bwAllSteps_sorted (wl : List Callback) (e H : Nat)
+    (hwf : ∀ cb ∈ wl, cb.arr.WF ∧ cb.arr.Exact) : (bwAllSteps wl e H).Pairwise (· < ·) :=
+  dedup_strict _ (go_sorted e H wl hwf 0)
+
+theorem bwCoverHorizon_ge (wl : List Callback) (e maxOff fuel H : Nat) :
+    H ≤ bwCoverHorizon wl e maxOff fuel H := by
+  induction fuel generalizing H with
+  | zero => exact Nat.le_refl _
+  | succ fuel ih =>
+    unfold bwCoverHorizon
+    split
+    · exact Nat.le_refl _
+    · exact Nat.le_trans (by omega) (ih (2 * H + 1))
+
+/-! ### bw: what `take_while` pulls from the step iterator -/
+
+theorem span_loop_eq (p : Nat → Bool) (l acc : List Nat) :
+    List.span.loop p l acc = (acc.reverse ++ l.takeWhile p, l.dropWhile p) := by
+  induction l generalizing acc with
+  | nil => simp [List.span.loop]
+  | cons a as ih =>
+    unfold List.span.loop
+    cases h : p a with
+    | true =>
+      simp only [ih, List.takeWhile_cons, List.dropWhile_cons, h, if_true, List.reverse_cons,
+        List.append_assoc, List.singleton_append]
+    | false => simp [h]
+
+theorem pulled_cons (a : Nat) (l : List Nat) (b : Nat) :
+    pulled (a :: l) b = if a < b then a :: pulled l b else [a] := by
+  unfold pulled List.span
+  rw [span_loop_eq, span_loop_eq]
+  simp only [List.reverse_nil, List.nil_append, List.takeWhile_cons, List.dropWhile_cons,
+    decide_eq_true_eq]
+  split
+  · rfl
+  · simp
+
+theorem pulled_sublist (l : List Nat) (b : Nat) : (pulled l b).Sublist l := by
+  induction l with
+  | nil => exact List.Sublist.slnil
+  | cons a as ih =>
+    rw [pulled_cons]
+    split
+    · exact List.Sublist.cons_cons a ih
+    · exact List.Sublist.cons_cons a (List.nil_sublist as)
+
+/-- an element of a strictly increasing list is pulled iff everything before it is below
+the bound -/
+theorem mem_pulled (l : List Nat) (hl : l.Pairwise (· < ·)) (b x : Nat) :
+    x ∈ pulled l b ↔ (x ∈ l ∧ ∀ z, z ∈ l → z < x → z < b) := by
+  induction l with
+  | nil =>
+    have : pulled [] b = [] := rfl
+    rw [this]
+    simp
+  | cons a as ih =>
+    rw [List.pairwise_cons] at hl
+    rw [pulled_cons]
+    by_cases hab : a < b
+    · rw [if_pos hab, List.mem_cons, ih hl.2]
+      constructor
+      · rintro (rfl | ⟨h1, h2⟩)
+        · refine ⟨by simp, ?_⟩
+          intro z hz hzx
+          rcases List.mem_cons.1 hz with rfl | hz
+          · exact hab
+          · have := hl.1 z hz; omega
+        · refine ⟨by simp [h1], ?_⟩
+          intro z hz hzx
+          rcases List.mem_cons.1 hz with rfl | hz
+          · exact hab
+          · exact h2 z hz hzx
+      · rintro ⟨h1, h2⟩
+        rcases List.mem_cons.1 h1 with rfl | h1
+        · exact Or.inl rfl
+        · exact Or.inr ⟨h1, fun z hz hzx => h2 z (by simp [hz]) hzx⟩
+    · rw [if_neg hab, List.mem_singleton]
+      constructor
+      · rintro rfl
+        refine ⟨by simp, ?_⟩
+        intro z hz hzx
+        rcases List.mem_cons.1 hz with rfl | hz
+        · omega
+        · have := hl.1 z hz; omega
+      · rintro ⟨h1, h2⟩
+        rcases List.mem_cons.1 h1 with rfl | h1
+        · rfl
+        · have := hl.1 x h1
+          have := h2 a (by simp) this
+          omega
+
+theorem le_getLastD (l : List Nat) (hl : l.Pairwise (· < ·)) (d x : Nat) (hx : x ∈ l) :
+    x ≤ l.getLastD d := by
+  rw [List.getLastD_eq_getLast?]
+  cases h : l.getLast? with
+  | none =>
+    rw [List.getLast?_eq_none_iff] at h
+    subst h
+    cases hx
+  | some y =>
+    obtain ⟨ys, rfl⟩ := List.getLast?_eq_some_iff.1 h
+    rw [List.pairwise_append] at hl
+    show x ≤ y
+    rcases List.mem_append.1 hx with hx | hx
+    · have := hl.2.2 x hx y (by simp); omega
+    · rw [List.mem_singleton] at hx; omega
+
+theorem getLastD_mem_or (l : List Nat) (d : Nat) : l.getLastD d = d ∨ l.getLastD d ∈ l := by
+  rw [List.getLastD_eq_getLast?]
+  cases h : l.getLast? with
+  | none => exact Or.inl rfl
+  | some y => exact Or.inr (List.mem_of_getLast? h)
+
+/-- the debug-only cross-check of the pulled steps against the brute-force enumeration
+cannot fire -/
+theorem debug_check_eq (wl : List Callback) (e H b : Nat) (he : e < wl.length)
+    (hwf : ∀ cb ∈ wl, cb.arr.WF ∧ cb.arr.Exact) (hb : b ≤ H) :
+    pulled (bwAllSteps wl e H) b =
+      (pulled (bwBruteSteps wl e (max ((pulled (bwAllSteps wl e H) b).getLastD b) b)) b).take
+        (pulled (bwAllSteps wl e H) b).length := by
+  have hsH := bwAllSteps_sorted wl e H hwf
+  have hpH : (pulled (bwAllSteps wl e H) b).Pairwise (· < ·) :=
+    List.Pairwise.sublist (pulled_sublist _ _) hsH
+  generalize hu : (pulled (bwAllSteps wl e H) b).getLastD b = upTo
+  rw [← bwAllSteps_eq_brute wl e _ he hwf]
+  have hs' := bwAllSteps_sorted wl e (max upTo b) hwf
+  have huH : max upTo b ≤ H := by
+    rcases getLastD_mem_or (pulled (bwAllSteps wl e H) b) b with h | h
+    · rw [hu] at h; omega
+    · rw [hu] at h
+      have := ((mem_bwAllSteps wl e H hwf upTo).1 ((pulled_sublist _ _).subset h)).1
+      omega
+  have heq : pulled (bwAllSteps wl e H) b = pulled (bwAllSteps wl e (max upTo b)) b := by
+    apply sorted_ext _ _ hpH (List.Pairwise.sublist (pulled_sublist _ _) hs')
+    intro x
+    rw [mem_pulled _ hsH, mem_pulled _ hs']
+    constructor
+    · rintro ⟨h1, h2⟩
+      have hx : x ∈ pulled (bwAllSteps wl e H) b := (mem_pulled _ hsH b x).2 ⟨h1, h2⟩
+      have hxu := le_getLastD _ hpH b x hx
+      rw [hu] at hxu
+      have h1' := (mem_bwAllSteps wl e H hwf x).1 h1
+      refine ⟨(mem_bwAllSteps wl e _ hwf x).2 ⟨by omega, h1'.2⟩, ?_⟩
+      intro z hz hzx
+      have hz' := (mem_bwAllSteps wl e _ hwf z).1 hz
+      exact h2 z ((mem_bwAllSteps wl e H hwf z).2 ⟨by omega, hz'.2⟩) hzx
+    · rintro ⟨h1, h2⟩
+      have h1' := (mem_bwAllSteps wl e _ hwf x).1 h1
+      refine ⟨(mem_bwAllSteps wl e H hwf x).2 ⟨by omega, h1'.2⟩, ?_⟩
+      intro z hz hzx
+      have hz' := (mem_bwAllSteps wl e H hwf z).1 hz
+      exact h2 z ((mem_bwAllSteps wl e _ hwf z).2 ⟨by omega, hz'.2⟩) hzx
+  rw [← heq, List.take_length]
+
+end RosNaiveLemmas
+
+namespace RosNaiveLemmas
+open PruneCoreLemmas
+
+/-! ### bw: the per-offset computation -/
+
+/-- the per-activation-offset computation of `bw::rta_subchain` -/
+def bwPerModel (s : Supply) (wl : List Callback) (e npp : Nat) (singleton : Prop)
+    [Decidable singleton] (limit act : Nat) : Res :=
+  let eoc := wl.getD e default
+  let n := eoc.bwSelfInstances act
+  let si := eoc.cost.ofJobs n
+  match search s limit (fun sStar => 1 + bwInterference wl e eoc.kind npp sStar act + si) with
+  | .ok sStar =>
+    if eoc.cost.ofJobs (n + 1) < eoc.cost.ofJobs n then .panic else
+    let omega := eoc.cost.ofJobs (n + 1) - eoc.cost.ofJobs n
+    match s.st? ((s.sbf sStar - 1) + omega) with
+    | some f => .ok (if singleton then f - act else f)
+    | none => .panic
+  | e => e
+
+theorem bwPer_eq (s : Supply) (hs : s.WF) (wl : List Callback) (e npp : Nat) (singleton : Prop)
+    [Decidable singleton] (limit : Nat) (hl : 1 ≤ limit)
+    (hwf : ∀ cb ∈ wl, cb.arr.WF ∧ MonoN cb.cost.ofJobs) (he : e < wl.length) (act : Nat) :
+    bwPerModel s wl e npp singleton limit act =
+      naiveBwPer s wl e npp (decide singleton) limit act := by
+  have heoc := hwf _ (getD_mem wl e he)
+  have hrhs : Mono (fun sStar => 1 + bwInterference wl e (wl.getD e default).kind npp sStar act +
+      (wl.getD e default).cost.ofJobs ((wl.getD e default).bwSelfInstances act)) := by
+    intro x y hxy
+    have := bwInterference_mono wl e (wl.getD e default).kind npp hwf x y act act hxy (Nat.le_refl _)
+    show 1 + _ + _ ≤ 1 + _ + _
+    omega
+  unfold bwPerModel naiveBwPer
+  refine (tail_eq s hs (wl.getD e default).cost.ofJobs heoc.2 _ hrhs limit hl
+    (fun _ => (wl.getD e default).bwSelfInstances act)
+    (fun f => if singleton then f - act else f)).trans ?_
+  rcases nss_cases s.sbf 0 (fun sStar => 1 + bwInterference wl e (wl.getD e default).kind npp sStar act +
+      (wl.getD e default).cost.ofJobs ((wl.getD e default).bwSelfInstances act)) limit with ⟨r, h⟩ | h
+  · simp only []
+    rw [h]
+    by_cases hsg : singleton <;> simp [hsg]
+  · simp only []
+    rw [h]
+
+theorem naiveBwPer_cases (s : Supply) (wl : List Callback) (e npp : Nat) (sg : Bool)
+    (limit act : Nat) :
+    (∃ v, naiveBwPer s wl e npp sg limit act = .ok v) ∨
+      naiveBwPer s wl e npp sg limit act = .div 0 limit := by
+  unfold naiveBwPer
+  simp only []
+  rcases nss_cases s.sbf 0 (fun sStar => 1 + bwInterference wl e (wl.getD e default).kind npp sStar act +
+      (wl.getD e default).cost.ofJobs ((wl.getD e default).bwSelfInstances act)) limit with ⟨r, h⟩ | h
+  · rw [h]; exact Or.inl ⟨_, rfl⟩
+  · rw [h]; exact Or.inr rfl
+
+/-- between two activation offsets with the same arrivals of the end of chain (one step
+later) and of the polled callbacks, the smaller offset dominates -/
+theorem bwPer_dom (s : Supply) (wl : List Callback) (e npp : Nat) (sg : Bool) (limit A A' : Nat)
+    (hle : A' ≤ A)
+    (hself : (wl.getD e default).arr.N (A + 1) = (wl.getD e default).arr.N (A' + 1))
+    (hpp : ∀ j, j < wl.length → j ≠ e → (wl.getD j default).kind.isPP = true →
+      (wl.getD j default).arr.N A = (wl.getD j default).arr.N A') :
+    Res.le (naiveBwPer s wl e npp sg limit A) (naiveBwPer s wl e npp sg limit A') := by
+  have hn : (wl.getD e default).bwSelfInstances A = (wl.getD e default).bwSelfInstances A' := by
+    unfold Callback.bwSelfInstances
+    rw [hself]
+  have hf : (fun sStar => 1 + bwInterference wl e (wl.getD e default).kind npp sStar A +
+        (wl.getD e default).cost.ofJobs ((wl.getD e default).bwSelfInstances A')) =
+      (fun sStar => 1 + bwInterference wl e (wl.getD e default).kind npp sStar A' +
+        (wl.getD e default).cost.ofJobs ((wl.getD e default).bwSelfInstances A')) := by
+    funext x
+    rw [bwInterference_congr wl e _ npp x A A' hpp]
+  unfold naiveBwPer
+  simp only []
+  rw [hn, hf]
+  rcases nss_cases s.sbf 0 (fun sStar => 1 + bwInterference wl e (wl.getD e default).kind npp sStar A' +
+      (wl.getD e default).cost.ofJobs ((wl.getD e default).bwSelfInstances A')) limit with ⟨r, h⟩ | h
+  · rw [h]
+    simp only []
+    show (if sg = true then _ - A else _) ≤ (if sg = true then _ - A' else _)
+    split <;> omega
+  · rw [h]
+    exact ⟨rfl, rfl⟩
+
+theorem bwRhsMax_mono (wl : List Callback) (e npp : Nat)
+    (hwf : ∀ cb ∈ wl, cb.arr.WF ∧ MonoN cb.cost.ofJobs) (he : e < wl.length) :
+    Mono (fun ta => 1 + bwInterference wl e (wl.getD e default).kind npp ta ta +
+      (wl.getD e default).cost.ofJobs ((wl.getD e default).arr.N ta)) := by
+  have heoc := hwf _ (getD_mem wl e he)
+  intro x y hxy
+  have h1 := bwInterference_mono wl e (wl.getD e default).kind npp hwf x y x y hxy hxy
+  have h2 := heoc.2 _ _ (Arr.N_mono _ heoc.1 x y hxy)
+  show 1 + _ + _ ≤ 1 + _ + _
+  omega
+
+/-- the relevant steps below the maximum offset dominate every activation offset below it -/
+theorem bw_pruned (s : Supply) (wl : List Callback) (e npp : Nat) (sg : Bool) (limit maxOff H : Nat)
+    (he : e < wl.length) (hwf : ∀ cb ∈ wl, cb.arr.WF ∧ cb.arr.Exact) (hH : maxOff ≤ H)
+    (hp : 0 < (wl.getD e default).arr.N 1) :
+    maxResponseTime (((bwAllSteps wl e H).filter (· < maxOff)).map (naiveBwPer s wl e npp sg limit)) =
+      naiveMax ((List.range maxOff).map (naiveBwPer s wl e npp sg limit)) := by
+  have hmemS : ∀ x, x ∈ (bwAllSteps wl e H).filter (· < maxOff) ↔ (x < maxOff ∧ Rel wl e x) := by
+    intro x
+    rw [List.mem_filter, mem_bwAllSteps wl e H hwf x, decide_eq_true_eq]
+    constructor
+    · rintro ⟨⟨_, h2⟩, h3⟩; exact ⟨h3, h2⟩
+    · rintro ⟨h1, h2⟩; exact ⟨⟨by omega, h2⟩, h1⟩
+  apply maxResponseTime_pruned (naiveBwPer s wl e npp sg limit) maxOff limit
+  · intro A hA; exact ((hmemS A).1 hA).1
+  · intro A _; exact naiveBwPer_cases s wl e npp sg limit A
+  · intro A hA
+    have h0 : 0 ∈ (bwAllSteps wl e H).filter (· < maxOff) := by
+      rw [hmemS]
+      refine ⟨by omega, e, he, ?_⟩
+      rw [if_pos rfl, Arr.N_zero]
+      exact hp
+    obtain ⟨A', hA'S, hA'le, hg⟩ := exists_greatest_le _ h0 A
+    refine ⟨A', hA'S, ?_⟩
+    apply bwPer_dom s wl e npp sg limit A A' hA'le
+    · apply const_of_no_increase _ (Arr.N_mono _ (hwf _ (getD_mem wl e he)).1) (A' + 1) (A + 1) (by omega)
+      intro δ h1 h2 hinc
+      have hmem : δ - 1 ∈ (bwAllSteps wl e H).filter (· < maxOff) := by
+        rw [hmemS]
+        refine ⟨by omega, e, he, ?_⟩
+        rw [if_pos rfl]
+        have e1 : δ - 1 + 1 = δ := by omega
+        rw [e1]
+        exact hinc
+      have := hg (δ - 1) hmem (by omega)
+      omega
+    · intro j hj hje hpp
+      apply const_of_no_increase _ (Arr.N_mono _ (hwf _ (getD_mem wl j hj)).1) A' A hA'le
+      intro δ h1 h2 hinc
+      have hmem : δ ∈ (bwAllSteps wl e H).filter (· < maxOff) := by
+        rw [hmemS]
+        refine ⟨by omega, j, hj, ?_⟩
+        rw [if_neg hje]
+        exact ⟨hpp, by omega, hinc⟩
+      have := hg δ hmem h2
+      omega
+
+theorem bw_core (s : Supply) (hs : s.WF) (wl : List Callback) (e npp : Nat) (singleton : Prop)
+    [Decidable singleton] (limit : Nat) (hl : 1 ≤ limit) (dbg : Bool) (he : e < wl.length)
+    (hwf : ∀ cb ∈ wl, cb.arr.WF ∧ cb.arr.Exact ∧ MonoN cb.cost.ofJobs)
+    (hp : 0 < (wl.getD e default).arr.N 1) :
+    (match search s limit (fun ta => 1 + bwInterference wl e (wl.getD e default).kind npp ta ta +
+        (wl.getD e default).cost.ofJobs ((wl.getD e default).arr.N ta)) with
+      | .ok maxOff =>
+        if dbg = true ∧ pulled (bwAllSteps wl e (bwCoverHorizon wl e maxOff 24 maxOff)) maxOff ≠
+            (pulled (bwBruteSteps wl e
+              (max ((pulled (bwAllSteps wl e (bwCoverHorizon wl e maxOff 24 maxOff)) maxOff).getLastD maxOff)
+                maxOff)) maxOff).take
+              (pulled (bwAllSteps wl e (bwCoverHorizon wl e maxOff 24 maxOff)) maxOff).length
+        then Res.panic else
+        overOffsets (some ((bwAllSteps wl e (bwCoverHorizon wl e maxOff 24 maxOff)).filter (· < maxOff)))
+          (bwPerModel s wl e npp singleton limit)
+      | e => e) =
+    (match naiveSolveSup s.sbf 0 (fun ta => 1 + bwInterference wl e (wl.getD e default).kind npp ta ta +
+        (wl.getD e default).cost.ofJobs ((wl.getD e default).arr.N ta)) limit with
+      | .ok maxOff =>
+        naiveMax ((List.range maxOff).map (naiveBwPer s wl e npp (decide singleton) limit))
+      | e => e) := by
+  have hwf1 : ∀ cb ∈ wl, cb.arr.WF ∧ cb.arr.Exact := fun cb h => ⟨(hwf cb h).1, (hwf cb h).2.1⟩
+  have hwf2 : ∀ cb ∈ wl, cb.arr.WF ∧ MonoN cb.cost.ofJobs := fun cb h => ⟨(hwf cb h).1, (hwf cb h).2.2⟩
+  rw [search_eq_nss s hs _ (bwRhsMax_mono wl e npp hwf2 he) limit hl]
+  rcases nss_cases s.sbf 0 (fun ta => 1 + bwInterference wl e (wl.getD e default).kind npp ta ta +
+      (wl.getD e default).cost.ofJobs ((wl.getD e default).arr.N ta)) limit with ⟨maxOff, h⟩ | h
+  · rw [h]
+    simp only []
+    have hH := bwCoverHorizon_ge wl e maxOff 24 maxOff
+    rw [if_neg (fun hc => hc.2 (debug_check_eq wl e _ maxOff he hwf1 hH))]
+    simp only [overOffsets]
+    have hfun : bwPerModel s wl e npp singleton limit =
+        naiveBwPer s wl e npp (decide singleton) limit :=
+      funext (bwPer_eq s hs wl e npp singleton limit hl hwf2 he)
+    rw [hfun]
+    exact bw_pruned s wl e npp (decide singleton) limit maxOff _ he hwf1 hH hp
+  · rw [h]
+
+end RosNaiveLemmas
+
 /-- C07, bw subchain analysis = linear-scan evaluation over EVERY activation offset below
 the maximum offset, when the end of the chain releases something -/
 theorem bw_eq_naive (s : Supply) (hs : s.WF) (wl : List Callback) (sub : List Nat) (limit : Nat)
@@ -890,6 +1340,19 @@ theorem bw_eq_naive (s : Supply) (hs : s.WF) (wl : List Callback) (sub : List Na
     (hwf : ∀ cb ∈ wl, cb.arr.WF ∧ cb.arr.Exact ∧ MonoN cb.cost.ofJobs)
     (hpos : ∀ e, sub.getLast? = some e → 0 < (wl.getD e default).arr.N 1) (dbg : Bool) :
     bwSubchain s wl sub limit dbg = naiveBw s wl sub limit := by
-  sorry
+  have _ := hne
+  unfold bwSubchain naiveBw
+  cases hlast : sub.getLast? with
+  | none => rfl
+  | some e =>
+    have he := hsub e (List.mem_of_getLast? hlast)
+    have hp := hpos e hlast
+    have hall : sub.all (fun x => decide (x < wl.length)) = true := by
+      rw [List.all_eq_true]
+      intro i hi
+      exact decide_eq_true (hsub i hi)
+    simp only []
+    rw [if_neg (not_not_intro hall)]
+    exact bw_core s hs wl e (sumPPBound wl sub) (sub.length = 1) limit hl dbg he hwf hp
 
 end RTA
